@@ -24,6 +24,10 @@ use shredh::{
 include!(concat!(env!("CARGO_MANIFEST_DIR"), "/gen-out/", env!("CARGO_BIN_NAME"), "_cases.rs"));
 
 fn main() {
+    shredh::run_main(real_main)
+}
+
+fn real_main() {
     shredh::quiet_panics();
     let a = Args::from_env();
     if a.flag("hash") {
